@@ -845,6 +845,9 @@ def reach_with_flags(cfg, start_ids, avoid=(), exc=False, env=None):
                     if isinstance(tv, bool) and not isinstance(a.value, ast.Name):
                         envd[a.targets[0].id] = tv
                         envd[f'{a.targets[0].id} is None'] = False
+        elif t.kind == 'handler' and isinstance(a, ast.ExceptHandler) and a.name:
+            envd[a.name] = True                 # `except E as err:` - err is an exception object
+            envd[f'{a.name} is None'] = False
         elif isinstance(a, (ast.AugAssign, ast.For, ast.AsyncFor, ast.With)):
             for x in ast.walk(a.target if hasattr(a, 'target') else a):
                 if isinstance(x, ast.Name) and isinstance(x.ctx, ast.Store):
